@@ -348,7 +348,14 @@ def r_tabletype(ctx):
             rets = [r for r in ast.walk(fn) if isinstance(r, ast.Return)]
             if not rets or any(r.value is None or dotted(r.value) != res for r in rets) or flow.conditions_guarding(outer[0]):
                 ok, msg = False, "the reader does not return the dictionary of tables it filled (`%s`) for every table" % res
-    ctx.ob("R-READER", "Function.get_class_constraints_duals", ok, msg, loc(fn, fn))
+    if not ok and getattr(ctx, "_reader_prog", None) is None:
+        from . import genprog
+        genprog.r_reader(ctx)
+    if not ok and getattr(ctx, "_reader_prog", None) is True:
+        # the reader was unrolled on two tables (and on a table with a cell of another kind): that decides what its cells become
+        ctx.notes.append("R-READER: structural clauses not met (%s); decided by the unrolled reader (R-GENPROG)" % msg)
+    else:
+        ctx.ob("R-READER", "Function.get_class_constraints_duals", ok, msg, loc(fn, fn))
     # the reader computes from the current tables at every call: no write to self, no stored result returned
     from .. import effects
     ws = [w for w in effects.writes_of(repo, fn) if w.root in ("self", "alias:self") or w.root.startswith("class:")]
@@ -499,7 +506,26 @@ def iter_base_(it):
     return iter_base(it)[0]
 
 
+def r_condition_names(ctx):
+    """Where a family has two conditions on one domain, the table (and the constraint names) of each carries the name documented for that
+    condition (spec/classes.py): exchanged names leave the model unchanged and attribute every multiplier to the wrong condition."""
+    ca = formula.get(ctx.repo)
+    n = 0
+    for c in ca.families:
+        for em, r in ca.matches[c.name]["pairs"]:
+            if not r.get("name") or em.kind != "scalar" or getattr(em, "name", None) is None:
+                continue
+            n += 1
+            ok = em.name == r["name"]
+            ctx.ob("R-NAME", em.key + "::documented name", ok,
+                   "the condition `%s` is named and tabled as '%s'" % (r.get("cond"), r["name"]) if ok else
+                   "the condition `%s` is named and tabled as '%s'; that name belongs to another condition of %s (this one is '%s')"
+                   % (r.get("cond"), em.name, c.name, r["name"]), em.where)
+    ctx.count("named conditions on shared domains", n)
+
+
 def run(ctx):
+    r_condition_names(ctx)
     r_nameunique(ctx)
     r_align(ctx)
     r_hook_tables(ctx)
@@ -507,7 +533,8 @@ def run(ctx):
     n = r_tabletype(ctx)
     r_bypass(ctx)
     from . import genprog
-    genprog.r_reader(ctx)
+    if getattr(ctx, "_reader_prog", "unset") == "unset":
+        genprog.r_reader(ctx)
     genprog.r_generators(ctx, {"table"})   # the generators unrolled on lists with repeated points: rows / columns / cells / names of the stored tables
     ctx.floor("stores into the tables attribute", n, 3)
 
